@@ -30,6 +30,12 @@ package env
 //@ spec abstract bind1E(w World, outer types.EnvType, name types.MalType, value types.MalType) error
 //@ spec abstract bind1W(w World, outer types.EnvType, name types.MalType, value types.MalType) World
 
+
+// ---- the scope chain itself (C01 env layer): innermost binding wins, def binds in the given scope
+//@ spec rec chainHas(e *Env, k string) bool = has(e.data, k) || (e.outer != nil && chainHas(e.outer, k))
+//@ spec rec chainGet(e *Env, k string) types.MalType = ite(has(e.data, k), e.data[k], ite(e.outer != nil, chainGet(e.outer, k), nil))
+//@ spec rec chainScope(e *Env, k string) *Env = ite(has(e.data, k), e, ite(e.outer != nil, chainScope(e.outer, k), nil))
+
 //@ func _newEnv() (r)
 //@   panics never
 //@   ensures fresh(r) && validEnv(r) && r.outer == nil && len(r.data) == 0
@@ -58,10 +64,24 @@ package env
 //@   panics never
 //@   ensures err != nil || (validEnvVal(r) && fresh(r.(*Env)) && r.(*Env).outer == outer.(*Env))
 
+// parameter binding (fn incl. & rest, arity errors): with bs the parameter names and es the arguments,
+// plainTo(bs, n): the first n parameters are symbols other than &
+//@ spec sq(x types.MalType) []types.MalType = ite(is(x, types.List), x.(types.List).Val, x.(types.Vector).Val)
+//@ spec isSq(x types.MalType) bool = is(x, types.List) || is(x, types.Vector)
+//@ spec nm(x types.MalType) string = x.(types.Symbol).Val
+//@ spec plainTo(bs []types.MalType, n int) bool = forall(j, 0, n, is(bs[j], types.Symbol) && nm(bs[j]) != "&")
+//@ spec ampAt(bs []types.MalType, p int) bool = 0 <= p && p < len(bs) && plainTo(bs, p) && is(bs[p], types.Symbol) && nm(bs[p]) == "&"
+//@ spec boundTo(d map[string]interface{}, bs []types.MalType, es []types.MalType, n int, rest string, hasRest bool) bool = forall(j, 0, n, has(d, nm(bs[j])) && (d[nm(bs[j])] == es[j] || exists(k, j+1, n, nm(bs[k]) == nm(bs[j])) || (hasRest && rest == nm(bs[j]))))
 //@ func _newSubordinateEnvWithBinds(outer, binds, exprs) (r, err)
 //@   requires outer == nil || validEnv(outer)
 //@   panics never
 //@   ensures err != nil || (validEnvVal(r) && fresh(r.(*Env)) && r.(*Env).outer == outer)
+//@   ensures implies(binds == nil || exprs == nil, err == nil && len(r.(*Env).data) == 0) @C01
+//@   ensures implies(binds != nil && exprs != nil && (!isSq(binds) || !isSq(exprs)), err != nil) @C01
+//@   ensures implies(binds != nil && exprs != nil && isSq(binds) && isSq(exprs) && plainTo(sq(binds), len(sq(binds))), (err == nil) == (len(sq(exprs)) == len(sq(binds))) && implies(err == nil, boundTo(r.(*Env).data, sq(binds), sq(exprs), len(sq(binds)), "", false))) @C01
+//@   ensures implies(binds != nil && exprs != nil && isSq(binds) && isSq(exprs), forall(p, 0, len(sq(binds)), implies(ampAt(sq(binds), p), (err == nil) == (p+1 < len(sq(binds)) && is(sq(binds)[p+1], types.Symbol) && p <= len(sq(exprs))) && implies(err == nil, r.(*Env).data[nm(sq(binds)[p+1])] == val(types.List{Val: sq(exprs)[p:]}) && boundTo(r.(*Env).data, sq(binds), sq(exprs), p, nm(sq(binds)[p+1]), true))))) @C01
+//@   ensures implies(binds != nil && exprs != nil && isSq(binds) && isSq(exprs), forall(p, 0, len(sq(binds)), implies(plainTo(sq(binds), p) && !is(sq(binds)[p], types.Symbol), err != nil))) @C01
+//@   loop 1 invariant 0 <= i && i <= len(binds) && i <= len(exprs) && !varargs && plainTo(binds, i) && fresh(env) && env.outer == outer && validEnv(env) && boundTo(env.data, binds, exprs, i, "", false) @C01
 
 //@ func (*Env).Find(e, key) (r)
 //@   ensures (r != nil) == lookupOK(world(), e, key.Val) @assume
@@ -71,6 +91,8 @@ package env
 //@   panics never
 //@   assigns nothing
 //@   ensures r == nil || validEnvVal(r)
+//@   ensures (r != nil) == chainHas(e, key.Val) && implies(r != nil, r.(*Env) == chainScope(e, key.Val)) @C01
+//@   decreases envDepth(e), 1
 
 //@ func (*Env).FindNT(e, key) (r)
 //@   requires held(e.mu)
@@ -79,6 +101,8 @@ package env
 //@   panics never
 //@   assigns nothing
 //@   ensures r == nil || validEnvVal(r)
+//@   ensures (r != nil) == chainHas(e, key.Val) && implies(r != nil, r.(*Env) == chainScope(e, key.Val)) @C01
+//@   decreases envDepth(e), 0
 
 //@ func (*Env).Get(e, key) (v, err)
 //@   requires unlocked(e.mu) @assume
@@ -87,6 +111,8 @@ package env
 //@   panics never
 //@   assigns nothing
 //@   ensures v == lookupV(world(), e, key.Val) && (err == nil) == lookupOK(world(), e, key.Val) @assume
+//@   ensures (err == nil) == chainHas(e, key.Val) && v == ite(chainHas(e, key.Val), chainGet(e, key.Val), nil) @C01
+//@   decreases envDepth(e), 1
 
 //@ func (*Env).GetNT(e, key) (v, err)
 //@   requires held(e.mu)
@@ -94,6 +120,8 @@ package env
 //@   requires validEnv(e)
 //@   panics never
 //@   assigns nothing
+//@   ensures (err == nil) == chainHas(e, key.Val) && v == ite(chainHas(e, key.Val), chainGet(e, key.Val), nil) @C01
+//@   decreases envDepth(e), 0
 
 //@ func (*Env).Set(e, key, value) (r)
 //@   changes world
@@ -103,6 +131,7 @@ package env
 //@   requires validEnv(e)
 //@   panics never
 //@   ensures r == value
+//@   ensures has(e.data, key.Val) && e.data[key.Val] == value && e.outer == old(e.outer) && forallkey(k, k == key.Val || (has(e.data, k) == old(has(e.data, k)) && e.data[k] == old(e.data[k]))) @C01
 
 //@ func (*Env).SetNT(e, key, value) (r)
 //@   requires heldW(e.mu)
@@ -110,6 +139,7 @@ package env
 //@   requires validEnv(e)
 //@   panics never
 //@   ensures r == value
+//@   ensures has(e.data, key.Val) && e.data[key.Val] == value && e.outer == old(e.outer) && forallkey(k, k == key.Val || (has(e.data, k) == old(has(e.data, k)) && e.data[k] == old(e.data[k]))) @C01
 
 //@ func (*Env).Remove(e, key) (err)
 //@   requires unlocked(e.mu) @assume
